@@ -57,10 +57,14 @@ func hexq(q string) string {
 }
 
 func (lc *LCase) describe() map[string]interface{} {
-	return map[string]interface{}{
+	d := map[string]interface{}{
 		"family": lc.Family, "n_keys": len(lc.Keys), "keys_hex": hexKeys(lc.Keys, 40),
 		"value_kind": lc.Vals.Kind, "values": lc.Vals.Describe(40),
 	}
+	if lc.Vals.Kind == "rawstr" && lc.Vals.NilEmpty {
+		d["value_kind"] = "rawstr (the encoder returns nil for the empty string)"
+	}
+	return d
 }
 
 func (lc *LCase) hash() uint64 {
